@@ -74,6 +74,7 @@ func checkC06(c *Ctx) {
 	c.Run.Assume = []string{"canonical encoding identifies +0 and -0 (like ==)", "records whose type needs two imported packages of the same name are skipped: no importing package can name both"}
 	c.Run.Floor = 40
 	sel := shapeSel{
+		ExtraTypes: commonExtras,
 		Forms: []string{"top", "field"}, QuickDeep: 60, QuickRand: 20, ThorRand: 300, BatchSize: 44,
 		KeepShape: func(t *pgen.Type) bool {
 			if !behaviouralShape(t) || !exportedOnly(t) {
